@@ -153,6 +153,8 @@ func rulePrintForm(c *core.Ctx, rule, ruleNotes string) {
 			return ""
 		}
 		switch {
+		case len(w.args) == 0 && len(verbs) == 0 && w.format == "\n":
+			kinds["terminator"] = true // the empty line written as a constant format
 		case len(w.args) >= 1 && isCallOnAny(w.args[0], "(time.Time).Format"):
 			kinds["heading"] = true
 			if len(verbs) != 1 || verbStr(0) != "%s" || lits[0] != "" || !in(lits[1], nameSet) || !strings.HasSuffix(lits[1], "\n") {
@@ -192,6 +194,17 @@ func rulePrintForm(c *core.Ctx, rule, ruleNotes string) {
 				l := argLoc(i)
 				if !(strings.HasSuffix(l, "·Name") || strings.HasSuffix(l, "·Value")) {
 					badNotes = append(badNotes, fmt.Sprintf("%s: note argument %s is not the parsed pair's Name or Value itself", w.pos, w.args[i].Key()))
+				}
+			}
+			switch len(w.args) {
+			case 1:
+				// the "# text" form: the text is the pair's Value (its Name is empty)
+				if !strings.HasSuffix(argLoc(0), "·Value") {
+					badNotes = append(badNotes, fmt.Sprintf("%s: a note without a name prints %s, not the pair's Value: the text of a '# text' note is lost on the first print", w.pos, w.args[0].Key()))
+				}
+			case 2:
+				if !strings.HasSuffix(argLoc(0), "·Name") || !strings.HasSuffix(argLoc(1), "·Value") {
+					badNotes = append(badNotes, fmt.Sprintf("%s: a '# name: value' note prints (%s, %s), not (Name, Value) in that order", w.pos, w.args[0].Key(), w.args[1].Key()))
 				}
 			}
 		default:
